@@ -302,6 +302,8 @@ class SymbolicTensorNetwork:
                 raise ValueError(f"to-be joined open axis index {joinax[0]} of first network out of range")
             if joinax[1] < 0 or joinax[1] >= other.num_open_axes:
                 raise ValueError(f"to-be joined open axis index {joinax[1]} of second network out of range")
+            if self.shape[joinax[0]] != other.shape[joinax[1]]:
+                raise ValueError(f"to-be joined open axes {joinax[0]} and {joinax[1]} have different dimensions")
         num_open_axes_orig = self.num_open_axes
         # require a deep copy since the IDs in the 'other' network might change
         other = copy.deepcopy(other)
